@@ -41,6 +41,7 @@ def run(ctx):
     f_state_owns_configs(ctx)
     c_shared_structure(ctx, enc)
     e_cleanup_keeps_needed(ctx)
+    e_done_instances_inert(ctx)
 
 
 def _enc_branches(enc):
@@ -495,6 +496,36 @@ def c_shared_structure(ctx, enc):
     ctx.check("C11.b.dict-keys", SER, enc.name, "dict keys survive the round trip", keys_ok,
               "non-string dict keys are encoded explicitly" if keys_ok else
               "dict keys are used as JSON object keys as they are: json.dumps turns `{1: \"one\"}` into `{\"1\": ...}` and nothing converts them back, so `$names[2]` works live and fails after a restore", line=(db.lineno if db else enc.lineno))
+
+
+def e_done_instances_inert(ctx):
+    """A finished instance stays in the state until the clean-up discards it (5 s of idle time).  In that window it must be invisible to later events, otherwise ageing
+    changes behaviour: the by-name FinishFlow / StopFlow handling walks ALL instances of a flow id, and if it counts an instance that has already ended as having handled the
+    event, the event is "handled" within 5 s and unhandled afterwards (F113: with `llm continuation` the second greeting gets no answer within 5 s of the first)."""
+    t = ctx.tree.ast(SM)
+    fn = find_function(t, "_process_internal_events_without_default_matchers")
+    if fn is None:
+        raise AnalysisError("_process_internal_events_without_default_matchers not found", anchor=SM + "::_process_internal_events_without_default_matchers")
+    loops = [l for l in ast.walk(fn) if isinstance(l, ast.For) and "flow_id_states" in src(l.iter)]
+    n = 0
+    for l in loops:
+        # names that say whether the instance had ended / is inactive
+        status_names = {a.targets[0].id for a in ast.walk(l) if isinstance(a, ast.Assign) and isinstance(a.targets[0], ast.Name)
+                        and re.search(r"\b(_is_done_flow|is_inactive_flow|is_active_flow|is_listening_flow)\(", src(a.value))}
+        for c in [c for c in ast.walk(l) if isinstance(c, ast.Call) and src(c.func) == "handled_event_loops.add"]:
+            n += 1
+            ok = False
+            for p_ in _anc(c, l):
+                if isinstance(p_, ast.If):
+                    tx = src(p_.test)
+                    if re.search(r"\b(_is_done_flow|is_inactive_flow|is_active_flow|is_listening_flow)\(", tx) or any(
+                            isinstance(x, ast.Name) and x.id in status_names for x in ast.walk(p_.test)):
+                        ok = True
+            ctx.check("C11.e.done-instances-inert", SM, fn.name, "event handled by the instances of a flow id", ok,
+                      "only an instance that had not ended counts as having handled the by-name event" if ok else
+                      "every instance of the flow id that matches the arguments counts as having handled the event, also one that ended long ago and only waits for the clean-up: "
+                      "the same event is handled while the finished instance is still in the state and unhandled once it has been discarded", line=c.lineno)
+    ctx.floor("C11.e.done-instances-inert", SM, "by-name FinishFlow/StopFlow handling", n, 2)
 
 
 def _in_list_branch(call, enc):
